@@ -31,6 +31,30 @@ def pointOp (op : String) (a : List String) : Option (List String) :=
         (match toAffine q with
          | some a => [kv "s_c" (encS a), kv "s_c1" (encS a), kv "s_c2" (encS a), kv "s_c3" (encS a), kv "s_c4" (encS a), kv "s_c5" "1"]
          | none => []))
+  | "PT.viaapi", [x1, y1, z1, x2, y2, z2, origin, how, k] =>
+      -- an operand with a history (created as the base point or by decoding `Encode(P)`, then overwritten in place): in the
+      -- model an element is its three coordinates, so only the value the history leaves counts
+      let p := parsePt x1 y1 z1; let q := parsePt x2 y2 z2; let k := parseOptL4 k
+      let v0 : Pt L4 := if origin = "base" then Hand.ElementL.base else
+        (match decode (Element.identity FL) (encode p) with
+         | (none, r) => r
+         | (some _, _) => Hand.ElementL.base)
+      let v : Pt L4 := match how with
+        | "set" => q
+        | "mul" => Element.multiply FL v0 k
+        | "dbl" => Element.double FL v0
+        | "add" => Element.add FL v0 (some q)
+        | "neg" => Element.negate FL v0
+        | "ident" => Element.identity FL
+        | _ => v0
+      let enc (r : Pt L4) := showBytes (encode r)
+      some ([kv "c" (enc (Element.add FL p (some v))), kv "c1" (enc (Element.add FL v (some p))),
+             kv "c2" (enc (Element.subtract FL p (some v))), kv "c3" (enc (Element.double FL v)), kv "c4" (enc v),
+             kv "r" (toString (Element.equal FL p v))] ++
+        (match toAffine p, toAffine v with
+         | some a, some b => [kv "s_c" (encS (padd a b)), kv "s_c1" (encS (padd b a)), kv "s_c2" (encS (psub a b)),
+                              kv "s_c3" (encS (padd b b)), kv "s_c4" (encS b), kv "s_r" (b2s (a = b))]
+         | _, _ => []))
   | "PT.addnil", [x1, y1, z1] => let p := parsePt x1 y1 z1
       some (ptOut (Element.add FL p none) ++ spec1 id p)
   | "PT.addself", [x1, y1, z1] => let p := parsePt x1 y1 z1
